@@ -433,9 +433,20 @@ def _make_ref_evaluator():
         """pymbolic's plain evaluator; additionally notes why a program's value must not be
         compared (the statement restricts // and % to non-negative operands, etc.)."""
 
+        reverse_operands = False
+
         def __init__(self, ctx):
             super().__init__(ctx)
             self.bad = []
+
+        def map_sum(self, expr):
+            kids = expr.children[::-1] if self.reverse_operands else expr.children
+            return sum(self.rec(child) for child in kids)
+
+        def map_product(self, expr):
+            from pytools import product
+            kids = expr.children[::-1] if self.reverse_operands else expr.children
+            return product(self.rec(child) for child in kids)
 
         def __call__(self, expr, *a):
             v = EvaluationMapper.__call__(self, expr, *a)
@@ -446,7 +457,8 @@ def _make_ref_evaluator():
                 v = int(v)
             elif isinstance(v, np.floating):
                 v = float(v)
-            if isinstance(v, int) and abs(v) > 2**40:
+            if isinstance(v, int) and abs(v) >= 2**31:
+                # also: arithmetic on integer *literals* is done in C's 32-bit int
                 self.bad.append("int-range")
             elif isinstance(v, float) and not (abs(v) < 1e12):
                 self.bad.append("float-range")
@@ -816,8 +828,9 @@ def _has_wrapper(o, p):
     return bool(acc)
 
 
-def _ref_value(Ref, e, ctx):
+def _ref_value(Ref, e, ctx, reverse=False):
     ev = Ref(ctx)
+    ev.reverse_operands = reverse
     try:
         v = ev(e)
     except (ZeroDivisionError, OverflowError, ValueError, TypeError) as ex:
@@ -838,6 +851,11 @@ def _expectation(Ref, e, kind, env, fenv, probes):
             ctx2[name] = ctx[name] * (1 + 1e-13)
         v2, bad2 = _ref_value(Ref, e, ctx2)
         fv = float(v)
+        # ... and the value must not depend on the order in which sums and products are
+        # accumulated (the sorting stringifier is free to re-associate them)
+        v3, bad3 = _ref_value(Ref, e, ctx, reverse=True)
+        if v3 is None or bad3 or abs(float(v3) - fv) > 1e-9 * max(1.0, abs(fv)):
+            v2 = None
         if v2 is None or bad2 or abs(float(v2) - fv) > 1e-9 * max(1.0, abs(fv)):
             probes["discard_ill_conditioned"] = probes.get("discard_ill_conditioned", 0) + 1
             return ["illcond", None, True]
